@@ -332,6 +332,44 @@ def residue_history(rnd, first_id):
     return events, rid
 
 
+def union_eq_history(rnd, first_id):
+    """Equality and hash of unions with structure members, and of structures holding them (parsed values only: assignments
+    through unions are C11's)."""
+    u8 = A.t_int("uint8")
+    p = A.t_struct("up", [A.field("x", u8), A.field("y", u8)])
+    inner = A.t_struct("uu", [A.field("s", p), A.field("w", A.t_int("uint16")), A.field("b", u8)], union=True)
+    outer = A.t_struct("uw", [A.field("t", u8), A.field("u", inner), A.field("arr", A.t_arr(inner, A.L_fixed(2)))])
+    t = rnd.choice([inner, outer])
+    mode = {"endian": rnd.choice("<>"), "align": False, "ptr": 8}
+    r = A.Renderer()
+    r.ensure(outer)
+    cs = codec.load(r.text({}), mode, rnd.random() < 0.5)
+    T = getattr(cs, t["name"])
+    pool = [bytes(rnd.choice([0, 1, 2]) for _ in range(8)) for _ in range(3)]
+    events, rid, live, next_iid = [], first_id, {}, 1
+    for _ in range(7):
+        base = {"cs": 1, "type": t, "mode": mode, "consts": {"_": 0}}
+        if len(live) < 2 or rnd.random() < 0.4:
+            data = rnd.choice(pool)
+            o = T.read(io.BytesIO(data))
+            live[next_iid] = (o, t)
+            ev = dict(base, ev="Parse", iid=next_iid, input=list(data), obs={"status": "ok", "v": A.project(o, t)})
+            next_iid += 1
+        else:
+            i, j = rnd.choice(list(live)), rnd.choice(list(live))
+            a, b = live[i][0], live[j][0]
+            try:
+                heq, hashable = hash(a) == hash(b), True
+            except TypeError:
+                heq, hashable = False, False
+            ev = dict(base, ev="Eq", iid=i, jid=j, obs={"eq": bool(a == b), "heq": heq, "hashable": hashable})
+        ev["id"] = rid
+        ev["snap"] = [[iid, A.project(o, tt)] for iid, (o, tt) in sorted(live.items())]
+        events.append(ev)
+        rid += 1
+    return events, rid
+
+
 class SessionCheck:
     def __init__(self, prop):
         self.prop = prop
@@ -354,6 +392,10 @@ class SessionCheck:
             events += evs
         for _ in range(1500 if thorough else 120):
             evs, rid = cross_object_history(rnd, rid)
+            events.append({"ev": "New", "endian": "<"})
+            events += evs
+        for _ in range(600 if thorough else 60):
+            evs, rid = union_eq_history(rnd, rid)
             events.append({"ev": "New", "endian": "<"})
             events += evs
         for _ in range(1200 if thorough else 100):
